@@ -70,7 +70,8 @@ func runC06(r *Report) {
 						passes = true
 					}
 				}
-				if passes || h.Signature.Results().Len() <= 1 {
+				res := h.Signature.Results()
+				if passes || res.Len() <= 1 || res.At(res.Len()-1).Type().String() == "error" {
 					cs = append(cs, hc)
 				}
 			})
@@ -97,19 +98,13 @@ func runC06(r *Report) {
 		}
 		b := ret.Block()
 		_, vpol, vfound := CallFact(b, "TunnelConnectionCode.CanBeActivatedBy")
-		claimedOK := false
-		cv := extractOf(claim, 0)
-		for _, ft := range Facts(b) {
-			if ft.Cond == cv && ft.Pol {
-				claimedOK = true
-			}
-		}
+		claimedOK := claimWonAt(b, claim)
 		steps := []struct {
 			what string
 			ok   bool
 		}{
 			{"validity test CanBeActivatedBy()==true", vfound && vpol},
-			{"atomic claim succeeded (claimed==true, no error)", claimedOK && ErrOK(b, claim)},
+			{"atomic claim succeeded (claimed==true, no error)", claimedOK},
 			{"mapping created without error", ErrOK(b, create)},
 			{"code marked activated without error", ErrOK(b, mark)},
 			{"code record updated without error", ErrOK(b, upd)},
@@ -199,15 +194,9 @@ func runC06(r *Report) {
 	checkAfter("R-C06-2", create, isDeleteCreatedH, "every failure return after the mapping was created deletes the created mapping (a failed activation leaves no mapping behind)", "rollback-mapping")
 	// claim success edge: ErrOK(claim) and claimed == true; use the block where both hold
 	var claimBlk *ssa.BasicBlock
-	cv := extractOf(claim, 0)
 	for _, b := range act.Blocks {
-		if !ErrOK(b, claim) {
-			continue
-		}
-		for _, ft := range Facts(b) {
-			if ft.Cond == cv && ft.Pol && (claimBlk == nil || b.Dominates(claimBlk)) {
-				claimBlk = b
-			}
+		if claimWonAt(b, claim) && (claimBlk == nil || b.Dominates(claimBlk)) {
+			claimBlk = b
 		}
 	}
 	if claimBlk == nil {
@@ -450,17 +439,20 @@ func runC06(r *Report) {
 	}
 	if rv := r.need("R-C06-5", ccPkg, "Service.RevokeConnectionCode"); rv != nil {
 		cl := Calls(rv, false, "ConnectionCodeRepository.ClaimForUse")
+		if len(cl) == 0 {
+			// the claim step shared with the activation (`s.claimCode(code, connCode, msg)`)
+			Instrs(rv, func(in ssa.Instruction) {
+				if hc, ok := in.(*ssa.Call); ok && len(cl) == 0 {
+					if h := hc.Common().StaticCallee(); h != nil && h.Pkg == rv.Pkg && len(h.Blocks) > 0 && len(Calls(h, false, "ConnectionCodeRepository.ClaimForUse")) == 1 {
+						cl = append(cl, hc)
+					}
+				}
+			})
+		}
 		up := Calls(rv, false, "ConnectionCodeRepository.Update")
 		ok := len(cl) == 1 && len(up) == 1
 		if ok {
-			cv := extractOf(cl[0], 0)
-			dom := false
-			for _, ft := range Facts(up[0].Block()) {
-				if ft.Cond == cv && ft.Pol {
-					dom = true
-				}
-			}
-			ok = dom && ErrOK(up[0].Block(), cl[0])
+			ok = claimWonAt(up[0].Block(), cl[0])
 		}
 		r.Ob("R-C06-5", rv.Pos(), ok, "revocation writes the record only after winning the same one-time claim (a concurrent activation and revocation cannot both succeed)", "RevokeConnectionCode", "revoke-claims")
 	}
@@ -470,4 +462,49 @@ func runC06(r *Report) {
 func valueIsResultOf(v ssa.Value, c ssa.CallInstruction, idx int) bool {
 	cc, i := CallOfValue(v)
 	return cc != nil && ssa.CallInstruction(cc) == c && (i == idx || (idx == 0 && i == -1))
+}
+
+// claimWonAt: at block b the one-time claim is known to have been won: the ClaimForUse call
+// returned (true, nil), or - when the step is a helper that returns only an error - the helper
+// returned nil and every nil return of the helper is dominated by its ClaimForUse having returned
+// (true, nil).
+func claimWonAt(b *ssa.BasicBlock, claim ssa.CallInstruction) bool {
+	direct := func(at *ssa.BasicBlock, c ssa.CallInstruction) bool {
+		if !ErrOK(at, c) {
+			return false
+		}
+		cv := extractOf(c, 0)
+		for _, ft := range Facts(at) {
+			if ft.Cond == cv && ft.Pol {
+				return true
+			}
+		}
+		return false
+	}
+	if CalleeOf(claim).Name == "ClaimForUse" {
+		return direct(b, claim)
+	}
+	cc, ok := claim.(*ssa.Call)
+	if !ok || !ErrOK(b, claim) {
+		return false
+	}
+	h := cc.Common().StaticCallee()
+	if h == nil || len(h.Blocks) == 0 {
+		return false
+	}
+	inner := Calls(h, false, "ConnectionCodeRepository.ClaimForUse")
+	if len(inner) != 1 {
+		return false
+	}
+	n := 0
+	for _, ret := range Returns(h) {
+		if RetErrKind(ret) == "nonnil" {
+			continue
+		}
+		n++
+		if !direct(ret.Block(), inner[0]) {
+			return false
+		}
+	}
+	return n > 0
 }
